@@ -373,6 +373,40 @@ H("md_bin_values_equal_padding", ["C08"], "core_vb", *ME, cap_s=1500, mem_gb=24,
              "the decoded bytes",
   functions=["metadata::encoding::Binary::{values_equal,equals,decode}"], bounds="all canonical one-byte values ('XX' vs 'XX==')")
 
+H("cmp_enabled_set_core", ["C05"], "comp", *CMP, cap_s=600,
+  obligation="N3 (set semantics): after any <= 4 enable() calls is_enabled / is_empty agree with the call history and pop removes exactly "
+             "the most recently enabled encoding",
+  functions=["EnabledCompressionEncodings::{enable,is_enabled,is_empty,pop}"],
+  bounds="all sequences of <= 4 enable() calls over {gzip,deflate,zstd}")
+BUF = ("tonic/src/codec/buffer.rs", "tonic/codec_buffer.rs")
+H("buf_decode_view", ["C01", "C07"], "core", *BUF, cap_s=600,
+  obligation="DecodeBuf: remaining()/chunk() expose exactly the first len bytes of the receive buffer; advance(k) consumes exactly k of "
+             "them from the stream and the view still ends at the payload's end",
+  functions=["tonic::codec::buffer::DecodeBuf::{new,remaining,chunk,advance}"], bounds="8 symbolic buffered bytes, any len <= 8, any k <= len")
+H("buf_encode_append", ["C01", "C03"], "core", *BUF, cap_s=600,
+  obligation="EncodeBuf: reserve + put_slice append exactly the encoder's bytes behind what is already buffered",
+  functions=["tonic::codec::buffer::EncodeBuf::{new,reserve,put_slice}"], bounds="3 pre-buffered symbolic bytes, any 0..=4 appended symbolic bytes")
+
+H("dec_hdr_negotiated", ["C05", "C06", "C07"], "comp", *DEC, cap_s=600,
+  obligation="N4 complement: with a negotiated encoding the header step accepts flag 0 (identity) and flag 1 (exactly the negotiated "
+             "encoding), flag >= 2 is INTERNAL, and the size limit applies to the on-the-wire length",
+  functions=DEC_FUNCS, bounds="all 5-byte prefixes, all limits, the three encodings, 3 directions")
+H("enc_finish_flag", ["C03", "C05"], "comp", *ENC, cap_s=600,
+  obligation="W1: finish_encoding writes flag 1 exactly when a compression encoding is in force, and the big-endian payload length",
+  functions=["tonic::codec::encode::finish_encoding"], bounds="identity + the three encodings, 8-byte frame")
+
+ABS = ("tonic's compress/decompress (the wrappers around flate2/zstd, which cannot be executed symbolically) replaced by an abstract invertible "
+       "codec ([0xC0|encoding id] ++ input) that records the encoding it was called with: decides framing/plumbing of the compressed path, "
+       "not the real compressors")
+H("enc_item_compressed", ["C01", "C03", "C05", "C06"], "comp", *ENC, cap_s=600, stubs=[ABS],
+  obligation="X1: encode_item with a compression encoding in force: flag 1, length prefix = compressed length, payload = the compressor's "
+             "output for exactly the serialized message, compressor called with the announced encoding, send limit applied to the compressed length",
+  functions=["tonic::codec::encode::encode_item", "finish_encoding"], bounds="2 pre-buffered + 2 payload symbolic bytes, 3 encodings, any limit")
+H("dec_body_compressed", ["C01", "C05", "C07"], "comp", *DEC, cap_s=600, stubs=[ABS],
+  obligation="X1: body phase of decode_chunk for a compressed frame: exactly the frame's payload goes to the decompressor of the negotiated "
+             "encoding, the decoder's view is exactly its output, exactly len bytes are consumed",
+  functions=DEC_FUNCS, bounds="5 symbolic buffered bytes, payload length 1..=5, 3 encodings")
+
 
 def select(pid, tier, seed=0):
     out = []
